@@ -68,8 +68,22 @@ func TestVerifC11X(t *testing.T) {
 		}
 		opt.SeedC, opt.SeedS = &c0, &s0
 	}
+	// optional: C11X_MASK = the network script (JSON list of pass/drop/dup/hold:k per emitted datagram), C11X_GEN = label
+	var mask []string
+	if v := os.Getenv("C11X_MASK"); v != "" {
+		if err := json.Unmarshal([]byte(v), &mask); err != nil {
+			t.Fatal(err)
+		}
+	}
+	gen := "x"
+	if v := os.Getenv("C11X_GEN"); v != "" {
+		gen = v
+	}
 	var res c11Case
-	vBubble(t, func(t *testing.T) { res = runC11Opt(t, 0, "x", c, s, os.Getenv("C11X_RESUME") == "1", nil, opt) })
+	vBubble(t, func(t *testing.T) { res = runC11Opt(t, 0, gen, c, s, os.Getenv("C11X_RESUME") == "1", mask, opt) })
 	b, _ := json.Marshal(res)
 	fmt.Println(string(b))
+	if out := os.Getenv("VERIF_OUT"); out != "" {
+		_ = os.WriteFile(out, append(b, '\n'), 0o600)
+	}
 }
